@@ -411,9 +411,38 @@ func laneGate(c *ev.Ctx, id, concurrentOp, probe string) {
 		order = "admin-op-waited-for-lookup"
 	}
 	h.Release()
-	pr := <-ch
-	if ar == nil {
-		ar = <-arCh
+	// Both requests must now complete. If neither does while the gateway keeps answering a request that needs no
+	// account lookup, the two requests block each other for good: the account change is never acknowledged and
+	// every later lookup of an uncached account would hang behind it. Confirmed twice, 30 s apart, with a live
+	// probe in between, before it is called a deadlock (a loaded machine alone never produces that picture).
+	var pr *s3c.Resp
+	stuck := 0
+	for pr == nil || ar == nil {
+		select {
+		case r := <-ch:
+			pr = r
+		case r := <-arCh:
+			if ar == nil {
+				ar = r
+			}
+		case <-time.After(30 * time.Second):
+			probe := w.root.Do(&s3c.Req{Method: "GET", Path: "/", FreshConn: true, Watchdog: 20 * time.Second})
+			if probe.Err != nil {
+				c.Inconclusive("gateway unresponsive during gated schedule (probe failed too)")
+				env.GWs[0].Kill()
+				return
+			}
+			stuck++
+			if stuck >= 2 {
+				c.Eval(1)
+				c.Violation("gate:lookup-miss|"+concurrentOp+":lookup-and-admin-change-block-each-other-forever", id, map[string]any{
+					"schedule": "lookup(cache miss) held at iamcache.afterFetch | " + concurrentOp + " issued | release",
+					"order":    order, "lookup_returned": pr != nil, "admin_op_returned": ar != nil,
+					"probe_without_account_lookup": probe.String(), "waited_s": 60})
+				env.GWs[0].Kill()
+				return
+			}
+		}
 	}
 	c.Eval(1)
 	if !ar.OK() {
